@@ -32,7 +32,10 @@ SPEC = {
              "swapRanks, flattenRanks, ==, | & ^ -, uncompress, nested iteration, point look-ups, countValues / repr / "
              "getShape ...); (iv) every grid tree of (i) x each single history operation x formats CU/UC/UU; (v) every "
              "grid tree x explicit active ranges on root / rows, x populate into a 3x3 output (empty or pre-filled), x "
-             "partitions of a split, under formats CU/UC/UU.  The oracle always walks the raw tree as it is when the "
+             "partitions of a split, x a populate loop nest LEFT EARLY (break out of the row loop at the 1st / 2nd row "
+             "before or after the row was filled, break out of the leaf loop, an exception out of the whole nest), under "
+             "formats CU/UC/UU; half of the random populate cases of (iii) also leave every loop with probability "
+             "0.05-0.25 per iteration before / after the body's work (break, exception, or both).  The oracle always walks the raw tree as it is when the "
              "Format is built and uses the declared shape.  Per case: "
              "getRoot, getTensor, getRank of every rank (before and after the other queries), getFiber and getSubTree at "
              "every stored proper prefix and at absent prefixes, all spec getters.  Non-trivial = the tree stores at "
@@ -44,14 +47,18 @@ SPEC = {
                              "u_absent_children": 2000, "omitted_fields": 5000,
                              "history_cases": 3000, "history_ops": 4000, "history_contentless_subfibers_in_u_rank": 500,
                              "active_set": 3000, "fibers_with_narrowed_active_range": 3000,
-                             "u_children_outside_active": 2000, "populate_cases": 300, "partition_cases": 200},
+                             "u_children_outside_active": 2000, "populate_cases": 300, "partition_cases": 200,
+                             "populate_left_early_cases": 800, "populate_loops_left_at_new_empty_subfiber": 250,
+                             "populate_loops_left_after_element_filled": 300},
                    "thorough": {"evaluations": 60000, "oracle_evals": 1000000, "contract_evals": 1000000,
                                 "getFiber_checked": 100000, "getSubTree_checked": 100000, "dirty_cases": 10000,
                                 "u_absent_children": 40000, "omitted_fields": 100000,
                                 "history_cases": 40000, "history_ops": 60000,
                                 "history_contentless_subfibers_in_u_rank": 8000, "active_set": 40000,
                                 "fibers_with_narrowed_active_range": 40000, "u_children_outside_active": 30000,
-                                "populate_cases": 6000, "partition_cases": 4000}},
+                                "populate_cases": 6000, "partition_cases": 4000, "populate_left_early_cases": 4000,
+                                "populate_loops_left_at_new_empty_subfiber": 1200,
+                                "populate_loops_left_after_element_filled": 1500}},
     "assumptions": [
         "occupancy of a compressed fiber = number of stored elements (len of its raw coordinate list), explicit "
         "defaults and stored empty sub-fibers included",
@@ -68,6 +75,11 @@ SPEC = {
         "a fiber's active range (Fiber.setActive, left behind by a populate, carried by a split partition) does not "
         "enter any footprint: 'shape' in the statement is the declared shape of the rank; explicit active ranges are "
         "kept inside [0, shape]",
+        "the body of a populate (<<) loop nest may leave any of its loops early (break, or an exception caught outside "
+        "the nest) before or after it worked on the current element; the generators are closed before the Format is "
+        "built and the expected footprints are computed from the raw tree the abandoned nest left behind, whatever it "
+        "is (an element created for the abandoned iteration may be kept or dropped - the statement only asks that "
+        "the footprints describe exactly the fibers of that tree)",
         "operations performed on the tensor before the Format is built (the history) are public and read-only / "
         "value-returning; their results are discarded, one that raises is not judged here, and the expected footprints "
         "are computed from the raw tree as it is afterwards - only the library's own view of that tree (rank fiber "
@@ -194,6 +206,10 @@ def generate(rng, tier, shard, nshards, mon):
                          for zt in ([], [[2, [[2, 9]]]], [[0, [[2, 9]]], [2, []]])]
             variants += [{"build": "partition", "shape": [3, 3], "fshape": [2, 2], "split": sp, "part": k}
                          for sp in (["splitUniform", 1], ["splitEqual", 1]) for k in (0, 1)]
+            # the populate loop nest left early: at the 1st / 2nd row before or after the row was filled, in the
+            # leaf loop, by break (that loop only) or by an exception (the whole nest)
+            variants += [{"build": "populate", "shape": [3, 3], "ztree": zt, "ashape": [2, 2], "leave": lv}
+                         for zt in ([], [[0, [[2, 9]]], [2, []]]) for lv in _GRID_LEAVE]
             for v in variants:
                 if idx % nshards == shard:
                     case = {"kind": "fmt", "tree": tree, "rank_ids": ["M", "K"], "default": 0, "tfmts": None,
@@ -220,6 +236,16 @@ _GRID_HISTORY = [
 _GRID_ACTIVE = [
     [[[], 0, 2]], [[[], 1, 3]], [[[], 1, 2]], [[[], 2, 2]], [[[0], 0, 1], [[1], 1, 3]],
     [[[], 0, 1], [[0], 1, 2], [[1], 0, 0]],
+]
+
+
+# early exits of the systematic populate block: {"at": [[loop level, iteration of that loop, "before" | "after" the
+# body's work on the element]], "how": "break" | "raise"}
+_GRID_LEAVE = [
+    {"at": [[0, 0, "before"]], "how": "break"}, {"at": [[0, 1, "before"]], "how": "break"},
+    {"at": [[0, 0, "after"]], "how": "break"}, {"at": [[1, 0, "before"]], "how": "break"},
+    {"at": [[0, 1, "before"], [1, 0, "after"]], "how": "break"}, {"at": [[0, 1, "before"]], "how": "raise"},
+    {"at": [[1, 1, "before"]], "how": "raise"},
 ]
 
 
@@ -276,6 +302,10 @@ def _random_case(rng, tier):
         case.update(build="populate", shape=zshape, ashape=list(extents),
                     tree=gen.rand_tree_spec(rng, extents, rng.choice([0.3, 0.6, 0.9]), dirty, default),
                     ztree=gen.rand_tree_spec(rng, zshape, 0.3, dirty, default) if rng.random() < 0.4 else [])
+        if rng.random() < 0.5:
+            # the loop nest is left early: every iteration of every loop may leave before / after its work
+            case["leave"] = {"p": rng.choice([0.1, 0.25, 0.5]), "seed": rng.randrange(1 << 30),
+                             "how": rng.choice(["break", "break", "raise", "mixed"])}
     elif r2 < 0.16:
         # one partition of a split of a free fiber, put into a tensor with a declared shape
         how = rng.choice(["splitUniform", "splitEqual", "splitNonUniform"])
@@ -420,7 +450,7 @@ class Model:
 # ------------------------------------------------------------------------------------------
 # postcondition on Format._getFiberFootprint
 # ------------------------------------------------------------------------------------------
-_CTX = {"mon": None, "model": None, "tensor": None, "installed": False, "via": None}
+_CTX = {"mon": None, "model": None, "tensor": None, "installed": False, "via": None, "left": (0, 0, 0)}
 
 
 def _post_fiber_footprint(self, rank, fiber, result):
@@ -475,13 +505,57 @@ class _UnknownOp(Exception):
     pass
 
 
-def _populate(z, a, d, depth):
-    """The usual output loop nest: z << a on every level, += on the leaves."""
-    for _, (z_ref, a_val) in z << a:
+class _Abandon(Exception):
+    """Raised by the body of a populate loop nest to leave the whole nest."""
+
+
+class _Leaver:
+    """Decides, per iteration of every populate loop, whether the body leaves the loop early (plan of the case)."""
+
+    def __init__(self, plan):
+        import random
+        self.plan = plan
+        self.at = {tuple(x) for x in plan["at"]} if plan and "at" in plan else None
+        self.rng = random.Random(plan["seed"]) if plan and "seed" in plan else None
+        self.left = 0                   # loops left early
+        self.left_new_empty = 0         # ... at a sub-fiber the << had just created and nothing was written into
+        self.left_filled = 0            # ... at / after an element that had received content
+
+    def __call__(self, d, i, when):
+        if self.plan is None:
+            return None
+        if self.at is not None:
+            return self.plan["how"] if (d, i, when) in self.at else None
+        if self.rng.random() < self.plan["p"] / 2:
+            how = self.plan["how"]
+            return self.rng.choice(["break", "raise"]) if how == "mixed" else how
+        return None
+
+
+def _populate(z, a, d, depth, leaver):
+    """The usual output loop nest: z << a on every level, += on the leaves; `leaver` may leave any loop early."""
+    had = set(z.coords)
+    for i, (c, (z_ref, a_val)) in enumerate(z << a):
+        how = leaver(d, i, "before")
+        if how:
+            leaver.left += 1
+            if d < depth - 1 and c not in had and len(z_ref.coords) == 0:
+                leaver.left_new_empty += 1
+            if how == "raise":
+                raise _Abandon()
+            break
         if d == depth - 1:
             z_ref += a_val
         else:
-            _populate(z_ref, a_val, d + 1, depth)
+            _populate(z_ref, a_val, d + 1, depth, leaver)
+        how = leaver(d, i, "after")
+        if how:
+            leaver.left += 1
+            if d == depth - 1 or len(z_ref.coords) > 0:
+                leaver.left_filled += 1
+            if how == "raise":
+                raise _Abandon()
+            break
 
 
 def _stored_fibers(root):
@@ -614,7 +688,12 @@ def _build(case):
             t = gen.tensor_from_spec(case["ztree"], rids, shape=case["shape"], default=d)
         else:
             t = Tensor(rank_ids=list(rids), shape=list(case["shape"]), default=d)
-        _populate(t.getRoot(), a.getRoot(), 0, len(rids))
+        leaver = _Leaver(case.get("leave"))
+        try:
+            _populate(t.getRoot(), a.getRoot(), 0, len(rids), leaver)
+        except _Abandon:
+            pass
+        _CTX["left"] = (leaver.left, leaver.left_new_empty, leaver.left_filled)
     elif case["build"] == "partition":
         f = gen.fiber_from_spec(case["tree"], default=d, shape=case["fshape"])
         parts = [p for p in getattr(f, case["split"][0])(case["split"][1]).getPayloads() if isinstance(p, Fiber)]
@@ -653,6 +732,7 @@ def run_case(case, mon):
     depth = len(rids)
     raw_spec = case["spec"]
     _CTX["model"] = _CTX["tensor"] = None
+    _CTX["left"] = (0, 0, 0)
     ok, t = _call(mon, "build-tensor", _build, case)
     if not ok:
         return
@@ -679,6 +759,11 @@ def run_case(case, mon):
         mon.count("dirty_cases")
     if case["build"] in ("populate", "partition"):
         mon.count(case["build"] + "_cases")
+    if _CTX["left"][0]:
+        mon.count("populate_left_early_cases")
+        mon.count("populate_loops_left_early", _CTX["left"][0])
+        mon.count("populate_loops_left_at_new_empty_subfiber", _CTX["left"][1])
+        mon.count("populate_loops_left_after_element_filled", _CTX["left"][2])
     # coverage of the two situations the widened domain is about (counters only, nothing is judged here):
     # fibers whose active range is not (0, declared shape), and - after a history - stored sub-fibers without
     # content in a rank the specification makes uncompressed
